@@ -888,6 +888,14 @@ class Interp:
             b = self.eval(e.right, env, f)
             if isinstance(e.op, ast.Add) and ((isinstance(a, list) and isinstance(b, list)) or (isinstance(a, tuple) and isinstance(b, tuple))):
                 return a + b
+            if isinstance(e.op, ast.Add) and isinstance(a, str) and isinstance(b, str) and not a.startswith("<") and not b.startswith("<"):
+                return a + b
+            if isinstance(e.op, ast.Mod) and isinstance(a, str) and not a.startswith("<") and (isinstance(b, (str, int)) or (isinstance(b, tuple) and all(isinstance(x, (str, int)) for x in b))) \
+                    and not (isinstance(b, str) and b.startswith("<")):
+                try:
+                    return a % b
+                except (TypeError, ValueError):
+                    return TOP
             if isinstance(e.op, ast.BitOr) and ((isinstance(a, set) and isinstance(b, set)) or (isinstance(a, dict) and isinstance(b, dict))):
                 return a | b
             if all(isinstance(x, int) and not isinstance(x, bool) for x in (a, b)):
